@@ -105,3 +105,153 @@ Proof. intros H. unfold kperm. rewrite H. apply check_permission_kperm. Qed.
 (* owner-only operations *)
 Lemma set_mode_ok_owner_or_root (m : meta) (u : user) : set_mode_ok m u = owner_or_root m u.
 Proof. unfold set_mode_ok, owner_or_root. apply orb_comm. Qed.
+
+(* ---- goal 2: the walk is refused at the same place ------------------------------------------------ *)
+Lemma werr_cases' (e : ekind) (k : N) :
+  walk_err_rel e k -> e <> EFuel ->
+  (e = ENoSuchDir \/ e = ENotADirectory \/ e = EPermDenied \/ e = ETooManySymlinks) /\ k = snd (ecode Linux e).
+Proof. intros [(He & _)|H] Hne; [congruence|exact H]. Qed.
+
+Lemma walk_rel_denied (h : heap) (u : user) (root : nat) (pr : bool) (r : sres) (K : wres) :
+  walk_rel h u root pr r K -> sr_err r <> EFuel -> (sr_err r = EPermDenied <-> K = WErr EACCES).
+Proof.
+  intros R Hnf. destruct K as [par kind name n|par name md|par kind name md|e]; cbn [walk_rel] in R.
+  - destruct R as (R1 & _). split; [congruence|discriminate].
+  - destruct R as (R1 & _). split; [congruence|discriminate].
+  - destruct R.
+  - destruct R as (R1 & _). destruct (werr_cases' _ _ R1 Hnf) as (Hc & ->). split.
+    + intros ->. reflexivity.
+    + intros [= He]. destruct Hc as [Hc|[Hc|[Hc|Hc]]]; rewrite Hc in He; try exact Hc; vm_compute in He; discriminate He.
+Qed.
+
+(* with symbolic links (the hypotheses of the walk bridge), for ANY user *)
+Theorem walk_denied_iff (s : fsys) (sv : sview) (slm : slmode) (cs : list str) :
+  let v := sv_view sv in
+  let h := f_heap s in
+  v_os v = Linux -> walk_wf h -> links_clean h -> node_is_dir h (v_root v) = true ->
+  Forall good_comp cs ->
+  let K := klookup s sv false (follow_of slm) (abs_path cs) in
+  let r := search_node s v (abs_path cs) slm in
+  K <> WErr EFUEL -> K <> WErr ELOOP -> sr_err r <> EFuel ->
+  (sr_err r = EPermDenied <-> K = WErr EACCES).
+Proof.
+  intros v h Hos Hwf Hlc Hrd Hg K r Hk1 Hk2 Hnf.
+  exact (walk_rel_denied _ _ _ _ _ _ (sym_bridge_lookup s sv slm cs Hos Hwf Hlc Hrd Hg Hk1 Hk2 Hnf) Hnf).
+Qed.
+
+(* on a link-free path: WHERE the walk is refused.  [first_unsearchable h u d cs]: looking [cs] up from the
+   directory [d], the first directory in which a name has to be looked up and that [u] may not search *)
+Fixpoint first_unsearchable (h : heap) (u : user) (d : nat) (cs : list str) : option nat :=
+  match cs with
+  | [] => None
+  | c :: rest =>
+      if negb (kperm h d 1 u) then Some d
+      else match alookup str_eqb c (children h d) with
+           | Some n => if node_is_dir h n && negb (is_nil rest) then first_unsearchable h u n rest else None
+           | None => None
+           end
+  end.
+
+(* it is the first one: everything before it is a walk through searchable directories *)
+Lemma first_unsearchable_spec (h : heap) (u : user) : forall (cs : list str) (d x : nat),
+  kperm h d 1 u = true -> first_unsearchable h u d cs = Some x ->
+  exists pre c post y, cs = pre ++ c :: post /\ post <> [] /\ dwalk h u d pre = Some y
+                       /\ alookup str_eqb c (children h y) = Some x /\ node_is_dir h x = true /\ kperm h x 1 u = false.
+Proof.
+  induction cs as [|c rest IH]; intros d x Hp H; [discriminate|]. cbn [first_unsearchable] in H.
+  rewrite Hp in H. cbn [negb] in H.
+  destruct (alookup str_eqb c (children h d)) as [n|] eqn:Hl; [|discriminate].
+  destruct (node_is_dir h n) eqn:Hd; [|discriminate]. destruct rest as [|c2 rest]; [discriminate|]. cbn [is_nil negb andb] in H.
+  destruct (kperm h n 1 u) eqn:Hpn.
+  - destruct (IH n x Hpn H) as (pre & c' & post & y & E & Hne & Hw & Hl' & Hd' & Hp').
+    exists (c :: pre), c', post, y. rewrite E. repeat split; auto. cbn [dwalk]. rewrite Hl, Hd, Hpn. exact Hw.
+  - cbn [first_unsearchable] in H. rewrite Hpn in H. injection H as <-.
+    exists [], c, (c2 :: rest), d. repeat split; auto. discriminate.
+Qed.
+
+(* the directory the implementation's walk was refused at *)
+Definition sr_denied (r : sres) : option nat :=
+  match sr_child r with Some c => Some c | None => sr_parent r end.
+
+Section Denied.
+  Variables (h : heap) (v : view).
+  Hypothesis Hos : v_os v = Linux.
+  Notation u := (v_user v).
+
+  Lemma denied_at : forall (todo done : list str) (parent : nat) pi fi fk slm vol pm follow slcount cnt saved kroot,
+    todo <> [] -> Forall good_comp (done ++ todo) -> before (done ++ todo) done pi ->
+    link_free h parent todo = true -> node_is_dir h parent = true -> kperm h parent 1 u = true ->
+    length todo <= fi -> length todo <= fk ->
+    match first_unsearchable h u parent todo with
+    | Some d => sr_err (search_loop fi h v slm vol parent pi slcount saved) = EPermDenied
+                /\ sr_child (search_loop fi h v slm vol parent pi slcount saved) = Some d
+                /\ kwalk fk h u kroot pm follow parent todo cnt false = WErr EACCES
+    | None => sr_err (search_loop fi h v slm vol parent pi slcount saved) <> EPermDenied
+              /\ kwalk fk h u kroot pm follow parent todo cnt false <> WErr EACCES
+    end.
+  Proof.
+    induction todo as [|c todo IH];
+      intros done parent pi fi fk slm vol pm follow slcount cnt saved kroot Hne Hg Hb Hlf Hd Hp Hfi Hfk; [congruence|].
+    destruct fi as [|fi]; [cbn [length] in Hfi; lia|]. destruct fk as [|fk]; [cbn [length] in Hfk; lia|].
+    cbn [length] in Hfi, Hfk.
+    assert (Hok : Forall comp_ok (done ++ c :: todo)) by (apply Forall_comp_ok_of; exact Hg).
+    assert (Hc : good_comp c) by (apply Forall_app in Hg as (_ & Hg); inversion Hg; assumption).
+    destruct (good_comp_kind _ Hc) as (K1 & K2).
+    rewrite (search_loop_on h v Hos fi slm vol parent pi slcount saved done todo c Hok Hb).
+    rewrite (root_check_pass h v vol parent Hp).
+    rewrite kwalk_S, Hd, Hp. cbn [negb]. cbv zeta. rewrite K1, K2.
+    cbn [first_unsearchable]. rewrite Hp. cbn [negb]. cbn [link_free] in Hlf.
+    destruct (alookup str_eqb c (children h parent)) as [n|] eqn:Hl.
+    2:{ destruct todo as [|c2 todo]; cbn [is_nil]; [destruct pm|rewrite andb_false_r]; cbn [andb sr_err]; split; discriminate. }
+    destruct (get h n) as [[ch m|dt k i m|link m]|] eqn:Hgn; [| |discriminate Hlf|].
+    - assert (Hnd : node_is_dir h n = true) by (unfold node_is_dir; rewrite Hgn; reflexivity). rewrite Hnd.
+      destruct todo as [|c2 todo]; cbn [is_nil negb andb].
+      + destruct pm; cbn [andb sr_err]; split; discriminate.
+      + rewrite andb_false_r.
+        assert (Hpn : kperm h n 1 u = check_permission m OpenLookup u) by (apply (kperm_dir _ _ _ _ u Hgn)).
+        destruct (check_permission m OpenLookup u) eqn:Hcp.
+        * apply (IH (done ++ [c]) n); auto; try lia; try discriminate.
+          -- rewrite <- app_assoc. exact Hg.
+          -- rewrite <- app_assoc. apply on_comp_before.
+        * cbn [first_unsearchable]. rewrite Hpn. cbn [negb sr_err sr_child].
+          destruct fk as [|fk]; [cbn [length] in Hfk; lia|].
+          rewrite kwalk_S, Hnd, Hpn. cbn [negb]. auto.
+    - assert (Hnd : node_is_dir h n = false) by (unfold node_is_dir; rewrite Hgn; reflexivity). rewrite Hnd. cbn [andb].
+      destruct todo as [|c2 todo]; cbn [is_nil]; [destruct pm|rewrite andb_false_r]; cbn [andb sr_err]; split; discriminate.
+    - assert (Hnd : node_is_dir h n = false) by (unfold node_is_dir; rewrite Hgn; reflexivity). rewrite Hnd. cbn [andb].
+      destruct todo as [|c2 todo]; cbn [is_nil]; [destruct pm|rewrite andb_false_r]; cbn [andb sr_err]; split; discriminate.
+  Qed.
+End Denied.
+
+(* goal 2, link-free form: both walks are refused (EPermDenied / EACCES) exactly when some traversed directory
+   lacks search permission, and the implementation's walk stops AT the first such directory *)
+Theorem walk_denied_first (s : fsys) (sv : sview) (cs : list str) (slm : slmode) (pm follow : bool) :
+  let v := sv_view sv in
+  let h := f_heap s in
+  v_os v = Linux -> Forall good_comp cs -> link_free h (v_root v) cs = true ->
+  node_is_dir h (v_root v) = true -> length cs < SEARCH_FUEL ->
+  let r := search_node s v (abs_path cs) slm in
+  match first_unsearchable h (v_user v) (v_root v) cs with
+  | Some d => sr_err r = EPermDenied /\ sr_denied r = Some d /\ klookup s sv pm follow (abs_path cs) = WErr EACCES
+  | None => sr_err r <> EPermDenied /\ klookup s sv pm follow (abs_path cs) <> WErr EACCES
+  end.
+Proof.
+  intros v h Hos Hg Hlf Hd Hlen r. subst r.
+  rewrite (search_node_abs_path s v cs slm Hos Hg), (klookup_abs_path s sv pm follow cs Hg).
+  fold v h. destruct cs as [|c cs].
+  - cbn [first_unsearchable]. unfold SEARCH_FUEL, WALK_FUEL.
+    rewrite (search_loop_end h v Hos _ slm (v_root v) (v_root v) _ 0 None [] (Forall_nil _) (pi_new_before [])).
+    rewrite kwalk_S. destruct pm; split; discriminate.
+  - destruct (kperm h (v_root v) 1 (v_user v)) eqn:Hp.
+    + pose proof (denied_at h v Hos (c :: cs) [] (v_root v) (pi_new Linux (abs_path (c :: cs))) SEARCH_FUEL WALK_FUEL slm
+                    (v_root v) pm follow 0 0 None (v_root v)) as D.
+      cbn [app] in D. specialize (D ltac:(discriminate) Hg (pi_new_before (c :: cs)) Hlf Hd Hp).
+      specialize (D ltac:(lia) ltac:(unfold SEARCH_FUEL, WALK_FUEL in *; lia)).
+      destruct (first_unsearchable h (v_user v) (v_root v) (c :: cs)) as [d|]; [|exact D].
+      destruct D as (D1 & D2 & D3). unfold sr_denied. rewrite D2. auto.
+    + cbn [first_unsearchable]. rewrite Hp. cbn [negb].
+      assert (Hok : Forall comp_ok (c :: cs)) by (apply Forall_comp_ok_of; exact Hg).
+      unfold SEARCH_FUEL, WALK_FUEL.
+      rewrite (search_loop_on h v Hos _ slm (v_root v) (v_root v) _ 0 None [] cs c Hok (pi_new_before (c :: cs))). cbv zeta.
+      rewrite root_check_kperm, Nat.eqb_refl, Hp. rewrite kwalk_S, Hd, Hp. cbn. auto.
+Qed.
